@@ -103,6 +103,10 @@ func quiesce(c *rt.CaseResult, env *dbx.Env, replay map[string]any) bool {
 		c.Violate("drain-failed "+firstWords(err.Error(), 4), err.Error(), replay)
 		return false
 	}
+	if env.Stranded > 0 {
+		c.Violate("cleanup-jobs-stranded deferred>0 flusher-gone", fmt.Sprintf("%d time(s) the worker pool held deferred cleanup jobs with no flusher to deliver them (state read twice, 2 ms apart, under the pool's list mutex): they are only executed if some later Send happens to time out, so on a quiet database their files stay", env.Stranded), replay)
+		return false
+	}
 	return true
 }
 
@@ -476,6 +480,11 @@ func c14Concurrent(tier string, seed int64, idx int, scratch string) rt.CaseResu
 	defer env.Close()
 	tr := conc.NewTracer(false)
 	tr.Perturb(20+rng.Intn(40), 50+rng.Intn(300), uint64(seed)*211+uint64(idx))
+	if idx%3 == 0 {
+		// Sends are deferred at once here: hold every flusher that found the list empty for a
+		// moment, so that cleanup jobs get deferred while it is on its way out
+		tr.SlowPoint("wpool.flusher.empty", time.Duration(200+rng.Intn(800))*time.Microsecond)
+	}
 	tr.Install()
 	ops := execProgram(env, tr, p, nil) // every transaction of the program is committed or rolled back by its client
 	conc.Uninstall()
